@@ -23,7 +23,7 @@ FAULTS = ["illegal_char_line", "stray_identifier_line", "stray_comma_line", "del
           "delete_open_brace", "unterminated_string", "column_without_type", "unknown_setting", "unknown_index_type",
           "bad_ref_operator", "bad_action", "bad_colour", "text_after_close_brace", "delete_open_bracket", "delete_close_bracket",
           "duplicate_open_bracket", "duplicate_close_bracket",
-          "empty_settings", "trailing_comma_in_settings", "missing_comma_in_settings", "missing_value", "ref_without_column", "keyword_typo", "junk_in_type_args", "exotic_space_line"]
+          "empty_settings", "trailing_comma_in_settings", "missing_comma_in_settings", "missing_value", "ref_without_column", "keyword_typo", "junk_in_type_args", "exotic_space_line", "foreign_setting"]
 _HEADS = [('Table ', 'table_head', 'table'), ('Enum ', 'enum_head', 'enum'), ('TableGroup ', 'group_head', 'group'),
           ('Project ', 'project_head', 'project'), ('Ref', 'ref_head', 'ref'), ('indexes', 'indexes_head', 'indexes'),
           ('Note ', 'sticky_head', 'note'), ('Note {', 'note_head', 'note')]
@@ -110,7 +110,17 @@ def label(lines: List[str]) -> List[Dict[str, Any]]:
     return out
 
 
-def apply_fault(lines: List[str], i: int, fault: str, variant: int) -> List[str]:
+FOREIGN_SETTINGS = {
+    'table_head': ['color: #aabbcc', 'pk', 'unique', 'type: btree', 'delete: cascade', 'increment'],
+    'group_head': ['headercolor: #aabbcc', 'pk', 'type: hash', 'update: cascade'],
+    'column': ['headercolor: #aabbcc', 'color: #abc', 'type: btree', 'delete: cascade', 'update: no action'],
+    'index': ['headercolor: #abc', 'not null', 'increment', 'default: 1', 'delete: cascade', 'null'],
+    'ref_short': ['pk', 'unique', 'headercolor: #abc', 'type: hash', 'not null'],
+    'ref_body': ['pk', 'unique', 'headercolor: #abc', 'type: hash', 'increment'],
+}
+
+
+def apply_fault(lines: List[str], i: int, fault: str, variant: int, kind: str = '') -> List[str]:
     ln = lines[i]
     new = list(lines)
     if fault == 'illegal_char_line':
@@ -137,6 +147,11 @@ def apply_fault(lines: List[str], i: int, fault: str, variant: int) -> List[str]
     elif fault == 'unknown_setting':
         k = mask(ln).index('[')
         new[i] = ln[:k] + ['[zzz, ', "[zzz: 'v', ", '[zzz: 1, '][variant % 3] + ln[k + 1:]
+    elif fault == 'foreign_setting':
+        # a setting that is well formed -- for ANOTHER kind of element
+        opts = FOREIGN_SETTINGS[kind]
+        k = mask(ln).index('[')
+        new[i] = ln[:k] + '[' + opts[variant % len(opts)] + ', ' + ln[k + 1:]
     elif fault == 'unknown_index_type':
         # an unknown word, fragments and extensions of real types
         bad = ['zzz', 'tree', 'has', 'gi', 'b', 'spg', 'hashh', 'btre'][variant % 8]
@@ -251,10 +266,10 @@ def main(argv: List[str]) -> int:
             for fault in FAULTS:
                 if i >= len(lines) and fault not in ('illegal_char_line', 'exotic_space_line', 'stray_identifier_line', 'stray_comma_line'):
                     continue
-                for variant in range(13 if fault == 'bad_action' else 8 if fault == 'unknown_index_type' else 5 if fault == 'junk_in_type_args' else 3 if fault in ('empty_settings', 'trailing_comma_in_settings', 'missing_comma_in_settings', 'missing_value', 'ref_without_column', 'keyword_typo') else 4 if fault in ('duplicate_open_bracket', 'duplicate_close_bracket') else 3 if fault in ('illegal_char_line', 'exotic_space_line', 'bad_colour', 'bad_ref_operator', 'text_after_close_brace', 'unknown_setting') else 1):
+                for variant in range(13 if fault == 'bad_action' else 8 if fault == 'unknown_index_type' else 5 if fault == 'junk_in_type_args' else 3 if fault == 'foreign_setting' else 3 if fault in ('empty_settings', 'trailing_comma_in_settings', 'missing_comma_in_settings', 'missing_value', 'ref_without_column', 'keyword_typo') else 4 if fault in ('duplicate_open_bracket', 'duplicate_close_bracket') else 3 if fault in ('illegal_char_line', 'exotic_space_line', 'bad_colour', 'bad_ref_operator', 'text_after_close_brace', 'unknown_setting') else 1):
                     try:
-                        new = apply_fault(lines + ([''] if i >= len(lines) else []), i, fault, variant + (seed if fault != 'unknown_setting' else 0))
-                    except (ValueError, AttributeError, ZeroDivisionError, IndexError):
+                        new = apply_fault(lines + ([''] if i >= len(lines) else []), i, fault, variant + (seed if fault != 'unknown_setting' else 0), site['kind'])
+                    except (ValueError, AttributeError, ZeroDivisionError, IndexError, KeyError):
                         continue            # the line has nothing this fault could be applied to
                     if new == lines:
                         continue
